@@ -136,8 +136,21 @@ type advTok struct {
 
 func buildAdv(knobs []Knob) advTok {
 	k := map[string]string{}
+	kseed := int64(17)
 	for _, x := range knobs {
 		k[x.F] = x.V
+		for _, ch := range x.F + "=" + x.V {
+			kseed = kseed*131 + int64(ch)
+		}
+	}
+	// next keys are derived deterministically from the case, so that a case (and a byte corruption of it) is
+	// exactly reproducible in a fresh process
+	det := rand.New(rand.NewSource(kseed))
+	genKey := func() (ed25519.PublicKey, ed25519.PrivateKey) {
+		seed := make([]byte, ed25519.SeedSize)
+		det.Read(seed)
+		priv := ed25519.NewKeyFromSeed(seed)
+		return priv.Public().(ed25519.PublicKey), priv
 	}
 	symbols := []string{"file1", "alpha", "beta"}
 	nsyms := len(symbols) + 1 // + the second block's symbol
@@ -348,7 +361,7 @@ func buildAdv(knobs []Knob) advTok {
 	pub, priv := fixedKey("adv-root")
 	signer := priv
 	signed := func(blk []byte, first bool) ([]byte, []byte, ed25519.PrivateKey) {
-		np, ns, _ := ed25519.GenerateKey(nil)
+		np, ns := genKey()
 		key := []byte(np)
 		alg := uint64(0)
 		if first {
